@@ -247,11 +247,39 @@ def AllMarkedValid {σ : Type} (keys : List (Key σ)) (m : MSig σ) (n : Nat) : 
   ∀ j (h : j < (marked m.ba n).length),
     ∃ s, m.sigs[j]? = some s ∧ keyAccepts keys ((marked m.ba n)[j]) s = true
 
+/-- The acceptance condition of `VerifyBytes`, declaratively: the signature bytes decode, the bit
+    array claims exactly `n = len(PubKeys)` positions, `int(K) ≤ len(Sigs) ≤ n`, at least `int(K)`
+    positions are marked and every marked position carries (in order) a valid signature. -/
+def Accept {σ : Type} (k : UInt64) (keys : List (Key σ)) (dec : Option (MSig σ)) : Prop :=
+  ∃ m, dec = some m ∧ m.ba.size = (keys.length : Int) ∧
+    kInt k ≤ (m.sigs.length : Int) ∧ m.sigs.length ≤ keys.length ∧
+    kInt k ≤ ((marked m.ba keys.length).length : Int) ∧ AllMarkedValid keys m keys.length
+
 /-- A bit array as `NewCompactBitArray(n)` shapes it (any content): the shape amino yields for
     honestly produced multisignatures. -/
 def WellFormed (ba : BA) (n : Nat) : Prop :=
   match ba with
   | none => n = 0
   | some b => 0 < n ∧ b.extra = UInt8.ofNat (n % 8) ∧ b.elems.length = (n + 7) / 8
+
+
+/-- `m` (a multisignature for `n` keys) represents the partial assignment
+    `f : position → signature`: well-formed bit array, position `p` marked iff `f p` is defined,
+    and `Sigs` lists the assigned signatures in position order. -/
+def Represents {σ : Type} (n : Nat) (m : MSig σ) (f : Nat → Option σ) : Prop :=
+  WellFormed m.ba n ∧ (∀ p : Nat, p < n → m.ba.getIndex (p : Int) = (f p).isSome) ∧
+    m.sigs = (List.range n).filterMap f
+
+/-- `AddSignature` calls in sequence on `m` (checked). -/
+def addAllE {σ : Type} (m : MSig σ) : List (Nat × σ) → R (MSig σ)
+  | [] => .ok m
+  | (i, s) :: rest => do
+    let m' ← addSignatureE m s (i : Int)
+    addAllE m' rest
+
+/-- the assignment after a sequence of adds: the latest signature per position wins. -/
+def assignAll {σ : Type} (f : Nat → Option σ) : List (Nat × σ) → Nat → Option σ
+  | [] => f
+  | (i, s) :: rest => assignAll (fun p => if p = i then some s else f p) rest
 
 end GnoVerif.C44
